@@ -39,6 +39,9 @@ func Litmus(ctx *engine.Ctx) {
 	a, b := enc(conclitmus.Encode, 0x01020304), enc(conclitmus.Encode, 0xA1A2A3A4)
 	r := vs.Concurrent2(2, a, b, a(), b(), maxExecPerPair)
 	ctx.Guard(r.Bad && r.Accesses > 0, "concurrency litmus: the shared scratch buffer of conclitmus.Encode was not detected (executions %d, access points %d): the globals instrumentation is not in effect", r.Executions, r.Accesses)
+	a, b = enc(conclitmus.EncodeAlias, 0x01020304), enc(conclitmus.EncodeAlias, 0xA1A2A3A4)
+	r = vs.Concurrent2(2, a, b, a(), b(), maxExecPerPair)
+	ctx.Guard(r.Bad && r.Accesses > 0, "concurrency litmus: the shared scratch buffer reached through a local alias (conclitmus.EncodeAlias) was not detected (executions %d, access points %d)", r.Executions, r.Accesses)
 	a, b = enc(conclitmus.EncodeLocal, 0x01020304), enc(conclitmus.EncodeLocal, 0xA1A2A3A4)
 	r = vs.Concurrent2(2, a, b, a(), b(), maxExecPerPair)
 	ctx.Guard(!r.Bad && r.HardError == "", "concurrency litmus: the correct variant was reported: %s %s", r.What, r.HardError)
